@@ -1,12 +1,69 @@
 /-
   C02 — conversion factors equal the exact ratio implied by the written definitions.
+
+  Model: `Registry.getRootUnits` (`_get_root_units[_recurse]`), `Registry.convFactor`,
+  `Registry.convertPlain`.  Exponents are integers (rational exponents on scaled units are
+  evaluated by pint in float: compared numerically by the correspondence only).
 -/
-import PintModel.Proofs.DimLemmas
+import PintModel.Proofs.RootLemmas
+import PintModel.Proofs.DimHom
 import PintModel.Props.C04
 import PintModel.Gen.DefaultRegistry
 
 namespace Pint.Props.C02
 open Pint Pint.UC Pint.Registry
+
+/-! ### root-unit expansion is a homomorphism into (ℚˣ, base-unit exponents) -/
+
+theorem C02_root_mul (R : Registry) {S : String → Prop} (hW : R.WFintOn S) {a b : UC}
+    (ha : IntUC a) (hb : IntUC b) (hKa : KeysIn S a) (hKb : KeysIn S b) (hn : a.keys.Nodup)
+    {fa fb : Rat} {ua ub : UC}
+    (h1 : R.getRootUnits a = .ok (fa, ua)) (h2 : R.getRootUnits b = .ok (fb, ub)) :
+    ∃ f u, R.getRootUnits (a.mul b) = .ok (f, u) ∧ f = fa * fb ∧ ∀ d, u.get d = ua.get d + ub.get d :=
+  R.getRootUnits_mul_on hW ha hb hKa hKb hn h1 h2
+
+theorem C02_root_div (R : Registry) {S : String → Prop} (hW : R.WFintOn S) {a b : UC}
+    (ha : IntUC a) (hb : IntUC b) (hKa : KeysIn S a) (hKb : KeysIn S b) (hn : a.keys.Nodup)
+    {fa fb : Rat} {ua ub : UC}
+    (h1 : R.getRootUnits a = .ok (fa, ua)) (h2 : R.getRootUnits b = .ok (fb, ub)) :
+    ∃ f u, R.getRootUnits (a.div b) = .ok (f, u) ∧ f = fa / fb ∧ ∀ d, u.get d = ua.get d - ub.get d :=
+  R.getRootUnits_div_on hW ha hb hKa hKb hn h1 h2
+
+theorem C02_root_pow (R : Registry) {S : String → Prop} (hW : R.WFintOn S) {a : UC}
+    (ha : IntUC a) (hKa : KeysIn S a) (n : Int) {fa : Rat} {ua : UC}
+    (h1 : R.getRootUnits a = .ok (fa, ua)) :
+    ∃ u, R.getRootUnits (a.pow (n : Rat)) = .ok (fa ^ n, u) ∧ ∀ d, u.get d = (n : Rat) * ua.get d :=
+  R.getRootUnits_pow_on hW ha hKa n h1
+
+theorem C02_root_ne_zero (R : Registry) {S : String → Prop} (hW : R.WFintOn S)
+    {u : UC} (hI : IntUC u) (hK : KeysIn S u) {f : Rat} {us : UC}
+    (h : R.getRootUnits u = .ok (f, us)) : f ≠ 0 :=
+  R.getRootUnits_factor_ne_zero_on hW hI hK h
+
+/-! ### the conversion factor is the ratio of the two root factors -/
+
+/-- the hypotheses under which the exact statements hold for a pair of containers -/
+structure Exact (R : Registry) (S : String → Prop) (a : UC) (fa : Rat) (ua : UC) : Prop where
+  int : IntUC a
+  keys : KeysIn S a
+  nodup : a.keys.Nodup
+  root : R.getRootUnits a = .ok (fa, ua)
+
+theorem C02_factor (R : Registry) {S : String → Prop} (hW : R.WFintOn S) {a b da db ua ub : UC} {fa fb : Rat}
+    (ea : Exact R S a fa ua) (eb : Exact R S b fb ub)
+    (ha : R.getDimensionality a = .ok da) (hb : R.getDimensionality b = .ok db)
+    (he : da.beq db = true) :
+    R.convFactor a b = .ok (fa / fb) := by
+  obtain ⟨f, u, h1, h2, _⟩ := R.getRootUnits_div_on hW ea.int eb.int ea.keys eb.keys ea.nodup ea.root eb.root
+  unfold convFactor; rw [ha, hb]; simp [he, h1, h2]
+
+/-- converting x returns x times the ratio of the expansions through the written definitions -/
+theorem C02_convert (R : Registry) {S : String → Prop} (hW : R.WFintOn S) {a b da db ua ub : UC} {fa fb : Rat}
+    (ea : Exact R S a fa ua) (eb : Exact R S b fb ub)
+    (ha : R.getDimensionality a = .ok da) (hb : R.getDimensionality b = .ok db)
+    (he : da.beq db = true) (x : Rat) :
+    R.convertPlain x a b = .ok (x * (fa / fb)) := by
+  unfold convertPlain; rw [C02_factor R hW ea eb ha hb he]
 
 theorem beq_refl {a : UC} (h : a.keys.Nodup) : a.beq a = true := by
   unfold beq
@@ -18,5 +75,119 @@ theorem beq_refl {a : UC} (h : a.keys.Nodup) : a.beq a = true := by
 theorem C02_identity (R : Registry) {a : UC} (h : a.keys.Nodup) (x : Rat) (auto : Bool) :
     R.convert x a a auto = .ok x := by
   unfold Registry.convert; simp [beq_refl h]
+
+/-- … and also without the shortcut: the factor of `a → a` is 1 -/
+theorem C02_factor_self (R : Registry) {S : String → Prop} (hW : R.WFintOn S) {a da ua : UC} {fa : Rat}
+    (ea : Exact R S a fa ua) (ha : R.getDimensionality a = .ok da) :
+    R.convFactor a a = .ok 1 := by
+  have hne := R.getRootUnits_factor_ne_zero_on hW ea.int ea.keys ea.root
+  have := C02_factor R hW ea ea ha ha ((C04.eq_iff (R.getDim_canon ha) (R.getDim_canon ha)).mpr fun _ => rfl)
+  rw [this, Rat.div_def, Rat.mul_inv_cancel _ hne]
+
+/-- invertible: factor(a,b) * factor(b,a) = 1 -/
+theorem C02_inverse (R : Registry) {S : String → Prop} (hW : R.WFintOn S) {a b da db ua ub : UC} {fa fb f g : Rat}
+    (ea : Exact R S a fa ua) (eb : Exact R S b fb ub)
+    (ha : R.getDimensionality a = .ok da) (hb : R.getDimensionality b = .ok db)
+    (he : da.beq db = true)
+    (hf : R.convFactor a b = .ok f) (hg : R.convFactor b a = .ok g) : f * g = 1 := by
+  have hna := R.getRootUnits_factor_ne_zero_on hW ea.int ea.keys ea.root
+  have hnb := R.getRootUnits_factor_ne_zero_on hW eb.int eb.keys eb.root
+  have he' : db.beq da = true :=
+    (C04.eq_iff (R.getDim_canon hb) (R.getDim_canon ha)).mpr
+      (fun k => ((C04.eq_iff (R.getDim_canon ha) (R.getDim_canon hb)).mp he k).symm)
+  rw [C02_factor R hW ea eb ha hb he] at hf
+  rw [C02_factor R hW eb ea hb ha he'] at hg
+  cases hf; cases hg
+  rw [Rat.div_def, Rat.div_def, Rat.mul_assoc, ← Rat.mul_assoc (fb⁻¹), Rat.inv_mul_cancel _ hnb,
+    Rat.one_mul, Rat.mul_inv_cancel _ hna]
+
+/-- path independent: factor(a,b) * factor(b,c) = factor(a,c) -/
+theorem C02_path (R : Registry) {S : String → Prop} (hW : R.WFintOn S)
+    {a b c da db dc ua ub uc : UC} {fa fb fc f g h : Rat}
+    (ea : Exact R S a fa ua) (eb : Exact R S b fb ub) (ec : Exact R S c fc uc)
+    (ha : R.getDimensionality a = .ok da) (hb : R.getDimensionality b = .ok db)
+    (hc : R.getDimensionality c = .ok dc)
+    (hab : da.beq db = true) (hbc : db.beq dc = true)
+    (hf : R.convFactor a b = .ok f) (hg : R.convFactor b c = .ok g) (hh : R.convFactor a c = .ok h) :
+    f * g = h := by
+  have hnb := R.getRootUnits_factor_ne_zero_on hW eb.int eb.keys eb.root
+  have hac : da.beq dc = true :=
+    (C04.eq_iff (R.getDim_canon ha) (R.getDim_canon hc)).mpr (fun k =>
+      ((C04.eq_iff (R.getDim_canon ha) (R.getDim_canon hb)).mp hab k).trans
+        ((C04.eq_iff (R.getDim_canon hb) (R.getDim_canon hc)).mp hbc k))
+  rw [C02_factor R hW ea eb ha hb hab] at hf
+  rw [C02_factor R hW eb ec hb hc hbc] at hg
+  rw [C02_factor R hW ea ec ha hc hac] at hh
+  cases hf; cases hg; cases hh
+  rw [Rat.div_def, Rat.div_def, Rat.div_def, Rat.mul_assoc, ← Rat.mul_assoc (fb⁻¹),
+    Rat.inv_mul_cancel _ hnb, Rat.one_mul]
+
+/-! ### the hypotheses hold for the bundled registry (decidable witness) -/
+
+def intUCB (u : UC) : Bool := u.all (fun p => p.2.den == 1)
+
+theorem intUC_of_B {u : UC} (h : intUCB u = true) : IntUC u := by
+  intro p hp
+  unfold intUCB at h
+  simp only [List.all_eq_true, beq_iff_eq] at h
+  exact h p hp
+
+/-- decidable form of `WFintOn R (· ∈ L)` -/
+def wfintOnB (R : Registry) (L : List String) : Bool :=
+  L.all fun k =>
+    match R.resolve k with
+    | .ok (_, some d) =>
+      d.isBase || (intUCB d.ref && d.ref.all (fun p => L.contains p.1) &&
+        (match d.conv.scaleOf with
+          | some s => s != 0
+          | none => true))
+    | _ => true
+
+theorem wfintOn_of_B {R : Registry} {L : List String} (h : wfintOnB R L = true) :
+    R.WFintOn (fun k => k ∈ L) := by
+  intro k hk key d hr hb
+  unfold wfintOnB at h
+  simp only [List.all_eq_true] at h
+  have := h k hk
+  rw [hr] at this
+  simp only [hb, Bool.false_or, Bool.and_eq_true, List.all_eq_true, List.contains_iff_mem] at this
+  obtain ⟨⟨h1, h2⟩, h3⟩ := this
+  refine ⟨intUC_of_B h1, ?_, ?_⟩
+  · intro k' hk'
+    unfold UC.keys at hk'
+    simp only [List.mem_map] at hk'
+    obtain ⟨p, hp, rfl⟩ := hk'
+    exact h2 p hp
+  · intro s hs
+    rw [hs] at h3
+    simpa using h3
+
+set_option maxRecDepth 100000 in
+/-- the bundled registry satisfies the well-formedness hypothesis on all exact canonical names -/
+theorem C02_default_wfint : Gen.defaultRegistry.WFintOn (fun k => k ∈ Gen.exactNames) :=
+  wfintOn_of_B (by decide +kernel)
+
+/-! ### non-vacuity: a concrete instance through the theorems -/
+
+theorem ok_of_toOption {ε α : Type} {x : Except ε α} {v : α} (h : x.toOption = some v) : x = .ok v := by
+  cases x with
+  | ok a => simp [Except.toOption] at h; rw [h]
+  | error e => simp [Except.toOption] at h
+
+set_option maxRecDepth 100000 in
+/-- 1 mile → foot is exactly 5280, obtained from the general theorem -/
+example : Gen.defaultRegistry.convFactor [("mile", 1)] [("foot", 1)] = .ok 5280 := by
+  have ea : Exact Gen.defaultRegistry (fun k => k ∈ Gen.exactNames) [("mile", 1)] (mkRat 201168 125) [("meter", 1)] :=
+    ⟨by intro p hp; simp at hp; subst hp; rfl, by intro k hk; simp [UC.keys] at hk; subst hk; decide +kernel,
+     by decide, ok_of_toOption (by decide +kernel)⟩
+  have eb : Exact Gen.defaultRegistry (fun k => k ∈ Gen.exactNames) [("foot", 1)] (mkRat 381 1250) [("meter", 1)] :=
+    ⟨by intro p hp; simp at hp; subst hp; rfl, by intro k hk; simp [UC.keys] at hk; subst hk; decide +kernel,
+     by decide, ok_of_toOption (by decide +kernel)⟩
+  have := C02_factor Gen.defaultRegistry C02_default_wfint ea eb
+    (da := [("[length]", 1)]) (db := [("[length]", 1)])
+    (ok_of_toOption (by decide +kernel)) (ok_of_toOption (by decide +kernel)) (by decide +kernel)
+  rw [this]
+  congr 1
+  decide +kernel
 
 end Pint.Props.C02
